@@ -82,7 +82,16 @@ func VH_C17_render() {
 		}
 	}
 	f.AutoHead(true)
+	nested := vx.ParamInt("nested") == 1
+	var subSpy *vCTSpy
+	f.Get("/sub", func(r Render) { r.PlainText(299, "SUB") })
 	f.Get("/", func(r Render) {
+		if nested {
+			// the handler already holds its Render, then another request passes the
+			// same Renderer middleware (a sub-request dispatched through the application)
+			subSpy = &vCTSpy{}
+			f.ServeHTTP(subSpy, &http.Request{Method: "GET", URL: &url.URL{Path: "/sub"}, Header: http.Header{}})
+		}
 		if !late {
 			do(r)
 		}
@@ -114,6 +123,10 @@ func VH_C17_render() {
 		wantCT = "application/octet-stream"
 	case "text":
 		wantCT = "text/plain; charset=" + charset
+	}
+	if nested {
+		vx.Assert(subSpy != nil && subSpy.headers == 1 && subSpy.firstCode == 299 && string(subSpy.body) == "SUB",
+			"C17: a renderer belongs to its own request (the sub-request gets exactly its own response)")
 	}
 	vx.Assert(spy.headers == 1 && spy.firstCode == status, "C17: exactly the given status is sent")
 	vx.Assert(spy.hadCT && spy.ctAtStatus == wantCT, "C17: the matching Content-Type (with the configured charset) is set before the status line")
